@@ -345,6 +345,16 @@ def run(ctx):
                             first_edge = [tg for lab, tg in b.switch_edges(s_) if (lab in (1, True)) == (dsym[1] == "Eq") and lab != "otherwise"]
                             first_edge = first_edge or [tg for lab, tg in b.switch_edges(s_) if lab == "otherwise" and dsym[1] == "Eq" and [a["v"] for a in t_["arms"]] == [0]]
                             positional = any(b.edge_dominates((s_, tg), W) for tg in first_edge)
+            if flag is None and positional is None and order["|#"].bb == order[","].bb:
+                # one write of a separator chosen beforehand: `let sep = if idx == 0 { b"|#" } else { b"," }`
+                from facts import alternatives
+
+                for bb_a, alt, *_g in alternatives(wt, order["|#"].args[1], order["|#"].bb, sy):
+                    if "|#" in [x for x in (_bytes_consts(alt) or []) if x]:
+                        for dd, lab in gates(b, bb_a):
+                            dd = strip_sym(dd)
+                            if dd[0] == "bin" and dd[1] in ("Eq", "Ne") and any(strip_sym(x)[:3] == ("const", "int", 0) for x in dd[2:4]) and "numerate" in repr(dd) and isinstance(lab, bool):
+                                positional = (dd[1] == "Eq") == lab
             if flag is None:
                 g_ = [sym_str(dd)[:60] for dd, _lab in gates(b, W)]
                 idx_idiom = bool(positional)
